@@ -26,7 +26,7 @@ TYPES = ['X', 'Xm', 'V', 'H']
 
 
 def sk(t):
-    return re.sub(r'#\d+\.\d+', '', show(t))
+    return re.sub(r'#(?:i\d+:)?\d+\.\d+', '', show(t))
 
 
 def ev(t, env):
@@ -407,7 +407,7 @@ def check_closure_gluing(facts, rep):
     rep.saw(b)
 
     def dk(t):
-        return re.sub(r'loop\d+_\d+', 'L', re.sub(r'\^_ref__', '^', re.sub(r'#\d+\.\d+', '', show(t, -1000)))).replace('&', '').replace('*', '')
+        return re.sub(r'loop\d+_\d+', 'L', re.sub(r'\^_ref__', '^', re.sub(r'#(?:i\d+:)?\d+\.\d+', '', show(t, -1000)))).replace('&', '').replace('*', '')
     zips, sorts, rets = set(), set(), set()
     for p in SymEx(b, havoc_loops=True, max_paths=5000).run():
         for e in p.calls():
